@@ -61,17 +61,27 @@ type G struct {
 	prelude *strings.Builder
 	qs      []*strings.Builder
 	qtypes  [][]*ty.Ty
+	qshadow map[int]bool // packages that import the user packages named like standard ones
 	stats   map[string]int
 	want    map[string]bool
 	maxLen  int
 	nRandom int
+	force   int  // >= 0: the derive package every placement goes to (shadow-import packages)
+	shadow  bool // the corpus holds the user packages named strings / sort / bytes
 }
 
 func (g *G) stat(k string, n int) { g.stats[k] += n }
 
 // pkgOf places an element type into the first derive package that holds no mutually assignable type.
 func (g *G) pkgOf(t *ty.Ty) int {
+	if g.force >= 0 {
+		g.qtypes[g.force] = append(g.qtypes[g.force], t)
+		return g.force
+	}
 	for qi := range g.qs {
+		if g.qshadow[qi] {
+			continue
+		}
 		clash := false
 		for _, o := range g.qtypes[qi] {
 			if gen.Assignable(g.env, t, o) || gen.Assignable(g.env, o, t) {
@@ -90,6 +100,57 @@ func (g *G) pkgOf(t *ty.Ty) int {
 	g.qtypes = append(g.qtypes, []*ty.Ty{t})
 	return len(g.qs) - 1
 }
+
+// newShadowPkg opens a derive package that imports the user's packages named strings, sort and bytes
+// (corpus/ext2/…): the generated file must give the standard packages it needs other aliases, in
+// whatever order the two are first mentioned.
+func (g *G) newShadowPkg() int {
+	sb := &strings.Builder{}
+	fmt.Fprintf(sb, "package q%d\n\nimport (\n\t\"corpus/ext\"\n\t\"corpus/ext2/bytes\"\n\t\"corpus/ext2/sort\"\n\t\"corpus/ext2/strings\"\n\t\"corpus/p\"\n)\n\nvar _ ext.XN\nvar _ p.NI\nvar _ bytes.B\nvar _ sort.Key\nvar _ strings.Word\n", len(g.qs))
+	g.qs = append(g.qs, sb)
+	g.qtypes = append(g.qtypes, nil)
+	g.qshadow[len(g.qs)-1] = true
+	g.shadow = true
+	return len(g.qs) - 1
+}
+
+const shadowStrings = `// Package strings is a user package that happens to be named like a standard one.
+package strings
+
+type Word string
+
+// Join is NOT concatenation.
+func Join(elems []string, sep string) string {
+	out := "<"
+	for _, e := range elems {
+		out += e + "," + sep
+	}
+	return out + ">"
+}
+
+func Compare(a, b string) int { return 0 }
+`
+
+const shadowSort = `// Package sort is a user package that happens to be named like a standard one: it sorts nothing.
+package sort
+
+type Key int
+
+func Strings(x []string)                             {}
+func Ints(x []int)                                   {}
+func Float64s(x []float64)                           {}
+func Slice(x interface{}, less func(i, j int) bool)  {}
+func SliceStable(x interface{}, less func(i, j int) bool) {}
+`
+
+const shadowBytes = `// Package bytes is a user package that happens to be named like a standard one.
+package bytes
+
+type B []byte
+
+func Equal(a, b []byte) bool  { return true }
+func Compare(a, b []byte) int { return 0 }
+`
 
 func slice(elems []*ty.Val, spare int) *ty.Val {
 	return &ty.Val{K: ty.VSlice, Spare: spare, Elems: elems}
@@ -623,6 +684,9 @@ func (g *G) fmapOps(i int, e, r *ty.Ty) {
 	// the argument list (func(E) R, []E) of two pairs is never mutually assignable: any package will do,
 	// spread round-robin to keep packages small
 	qi := i % len(g.qs)
+	if g.force >= 0 {
+		qi = g.force
+	}
 	q, qn := g.qs[qi], fmt.Sprintf("q%d", qi)
 	fmt.Fprintf(q, "\nfunc Fmap_%d(f func(%s) %s, l []%s) []%s { return deriveFmap_%d(f, l) }\n", i, ge, gr, ge, gr, i)
 	fmt.Fprintf(g.m, "\trt.Reg(\"fmap\", %q, rt.Fmap(%s.Fmap_%d))\n", tn, qn, i)
@@ -699,15 +763,15 @@ func (g *G) fmapStringOps(i int, r *ty.Ty) {
 	}
 }
 
-func (g *G) joinStringOps() {
-	q, qn := g.qs[0], "q0"
+func (g *G) joinStringOps(qi int, tn string) {
+	q, qn := g.qs[qi], fmt.Sprintf("q%d", qi)
 	fmt.Fprintf(q, "\nfunc JoinS(l []string) string { return deriveJoinS(l) }\n")
-	fmt.Fprintf(g.m, "\trt.Reg(\"joins\", \"string\", rt.JoinS(%s.JoinS))\n", qn)
+	fmt.Fprintf(g.m, "\trt.Reg(\"joins\", %q, rt.JoinS(%s.JoinS))\n", tn, qn)
 	pool := g.stringPool()
-	g.ow.op("joins", "string", "nil")
-	g.ow.op("joins", "string", slice(nil, 0).Wire())
+	g.ow.op("joins", tn, "nil")
+	g.ow.op("joins", tn, slice(nil, 0).Wire())
 	for _, s := range pool {
-		g.ow.op("joins", "string", g.vg.Inst(slice([]*ty.Val{sv(s)}, 0)).Wire())
+		g.ow.op("joins", tn, g.vg.Inst(slice([]*ty.Val{sv(s)}, 0)).Wire())
 	}
 	n := 40
 	if *thorough {
@@ -720,7 +784,7 @@ func (g *G) joinStringOps() {
 			es[j] = sv(pool[g.rng.Intn(len(pool))])
 		}
 		g.stat(fmt.Sprintf("joins-len:%d", l), 1)
-		g.ow.op("joins", "string", g.vg.Inst(slice(es, g.rng.Intn(2))).Wire())
+		g.ow.op("joins", tn, g.vg.Inst(slice(es, g.rng.Intn(2))).Wire())
 	}
 }
 
@@ -875,6 +939,14 @@ func main() {
 	rng := rand.New(rand.NewSource(*seed))
 	env := gen.Lib()
 	b, n, p := ty.B, ty.N, ty.P
+	// declarations of this corpus only: types of user packages named like standard packages
+	// (corpus/ext2/strings, …/sort, …/bytes); their functions of the same names do something else
+	shadow0 := len(env.Decls)
+	env.Decls = append(env.Decls,
+		&ty.Decl{Name: "Word", Pkg: "strings", Under: b("string")},
+		&ty.Decl{Name: "Key", Pkg: "sort", Under: b("int")},
+		&ty.Decl{Name: "B", Pkg: "bytes", Under: ty.Sl(b("byte"))})
+	word, key, bb := n(shadow0), n(shadow0+1), n(shadow0+2)
 	// element types: basics (incl. bool and complex, which have no <), named basics (incl. a named bool), comparable struct, pointers to structs, slices, a struct
 	// with pointers, a recursive and an imported struct behind pointers
 	elems := []*ty.Ty{b("int"), b("int64"), b("uint8"), b("string"), b("float64"), b("bool"), n(0), n(1), n(2),
@@ -944,16 +1016,42 @@ func main() {
 	opsf, err := os.Create(filepath.Join(*out, "ops.txt"))
 	must(err)
 	g := &G{env: env, vg: gen.NewVGen(env, rng, cap), rng: rng, ow: &opw{f: opsf, n: map[string]int{}}, m: &m,
-		prelude: &prelude, stats: map[string]int{}, want: want, maxLen: maxLen, nRandom: nRandom}
+		prelude: &prelude, stats: map[string]int{}, want: want, maxLen: maxLen, nRandom: nRandom, force: -1, qshadow: map[int]bool{}}
 
 	perElem := false
 	for _, pl := range []string{"sort", "min", "max", "contains", "unique", "set", "union", "intersect", "filter", "takewhile", "all", "any", "join"} {
 		perElem = perElem || want[pl]
 	}
+	shadowA := -1
 	if perElem {
 		for i, t := range elems {
 			g.elemOps(i, t)
 		}
+		// two packages that import the shadow packages: in the first the user's strings / sort / bytes are
+		// mentioned before the generated code needs the standard ones, in the second after
+		idx := len(elems)
+		std := []*ty.Ty{b("string"), b("int"), b("float64"), n(10), n(16)}
+		sh := []*ty.Ty{key, word, bb}
+		shadowA = g.newShadowPkg()
+		g.force = shadowA
+		for _, t := range append(append([]*ty.Ty(nil), sh...), std...) {
+			g.elemOps(idx, t)
+			idx++
+		}
+		if want["join"] {
+			g.joinStringOps(shadowA, "stringA")
+		}
+		shadowB := g.newShadowPkg()
+		g.force = shadowB
+		if want["join"] {
+			g.joinStringOps(shadowB, "stringB")
+		}
+		for _, t := range append(append([]*ty.Ty(nil), std...), sh...) {
+			g.elemOps(idx, t)
+			idx++
+		}
+		g.force = -1
+		g.stat("shadow-import-packages", 2)
 	}
 	if want["keys"] || want["union"] || want["intersect"] {
 		for i, k := range keys {
@@ -985,12 +1083,20 @@ func main() {
 				i++
 			}
 		}
+		if shadowA >= 0 {
+			g.force = shadowA
+			for _, pr := range [][2]*ty.Ty{{word, word}, {b("string"), word}, {bb, key}} {
+				g.fmapOps(i, pr[0], pr[1])
+				i++
+			}
+			g.force = -1
+		}
 		for ri, r := range results {
 			g.fmapStringOps(ri, r)
 		}
 	}
 	if want["join"] {
-		g.joinStringOps()
+		g.joinStringOps(0, "string")
 	}
 	m.WriteString("}\n")
 	must(opsf.Close())
@@ -1001,7 +1107,16 @@ func main() {
 		write(filepath.Join(*out, fmt.Sprintf("q%d", qi), "q.go"), q.String())
 		fmt.Fprintf(&mh, "\t\"corpus/q%d\"\n", qi)
 	}
+	if g.shadow {
+		mh.WriteString("\t\"corpus/ext2/bytes\"\n\t\"corpus/ext2/sort\"\n\t\"corpus/ext2/strings\"\n")
+		write(filepath.Join(*out, "ext2", "strings", "strings.go"), shadowStrings)
+		write(filepath.Join(*out, "ext2", "sort", "sort.go"), shadowSort)
+		write(filepath.Join(*out, "ext2", "bytes", "bytes.go"), shadowBytes)
+	}
 	mh.WriteString("\t\"verifharness/rt\"\n)\n\nvar _ ext.XN\nvar _ p.NI\n\nfunc main() { rt.Main() }\n\nfunc init() {\n")
+	if g.shadow {
+		mh.WriteString("\tvar _ bytes.B\n\tvar _ sort.Key\n\tvar _ strings.Word\n")
+	}
 	for qi := range g.qs {
 		fmt.Fprintf(&mh, "\t_ = q%d.Anchor\n", qi)
 	}
